@@ -110,6 +110,9 @@ func boundCheck(name string, s *Scn) {
 		dns[string(scnDNS[0])] = struct{}{}
 	}
 	act := verif.U32("activation2")
+	if s.Gas == nil {
+		s.Gas = schedule("g")
+	}
 	c, _ := factoryFor(s, dns, act)
 	f, err := c.Get(name)
 	verif.Assert("bound", verif.And(err == nil, f != nil))
@@ -154,7 +157,8 @@ func boundCheck(name string, s *Scn) {
 		if cok && (s.Snd != nil || name == vmcommon.BuiltInFunctionSetUserName) {
 			fwd, _ := forwarded(s)
 			consumed := s.In.GasProvided - s.Out.GasRemaining - fwd
-			verif.Assert("priced-by-own-entry", verif.Or(s.In.GasProvided < charge, consumed == charge))
+			f12 := verif.And(s.Name == "ClaimDeveloperRewards", s.In.CallType == vmcommon.AsynchronousCall, allEq(s.In.CallerAddr, 0, 8, 0))
+			verif.AssertExcept("priced-by-own-entry", verif.Or(s.In.GasProvided < charge, consumed == charge), "F12", f12)
 		}
 	}
 }
